@@ -32,7 +32,12 @@ from btclib.curves.curve import Curve, PreparedPoint, double_mult_var, mult, mul
 from btclib.ecc import dsa, musig2, pedersen, ssa
 from btclib.mnemonic import bip39
 from btclib.mnemonic.mnemonic import WordLists
+from btclib.exceptions import BTClibValueError
+from btclib.psbt import musig2 as psbt_musig2
+from btclib.psbt.psbt import Psbt, extract_tx, finalize
 from btclib.psbt_signer import SoftwareSigner
+from btclib.script.engine import verify_transaction
+from btclib.tx import OutPoint, Tx, TxIn, TxOut
 from btclib.to_pub_key import pub_keyinfo_from_key
 from btclib.wallet import BIP32KeyWallet, DescriptorWallet
 
@@ -168,13 +173,17 @@ def _nonce0(sid, j, variant):
 
 def _sign_op(sid, prv):
     """The op token for `musig2.sign(<nonce>, prv, session sid)`: the public inputs of the model."""
+    return _sign_op_ctx(lambda: _fresh_ctx(sid), prv, sid)
+
+
+def _sign_op_ctx(make_ctx, prv, label):
     try:
-        v = musig2.session_values(_fresh_ctx(sid))
+        v = musig2.session_values(make_ctx())
     except Exception as e:  # noqa: BLE001
         c = _cls(e)
         if c not in ("value", "runtime"):
-            raise common.HarnessError(f"session {sid}: unexpected {type(e).__name__}")
-        return f"S,{c[0]},0,0,0,0,0,0,{prv},_,0,{sid}"
+            raise common.HarnessError(f"session {label}: unexpected {type(e).__name__}")
+        return f"S,{c[0]},0,0,0,0,0,0,{prv},_,0,{label}"
     g = 1 if v.Q[1] % 2 == 0 else N - 1
     if 0 < prv < N:
         pk = musig2.individual_pub_key(prv)
@@ -183,16 +192,26 @@ def _sign_op(sid, prv):
         pkh = pk.hex()
     else:
         pkh, ins, a = "_", False, 0
-    return f"S,1,{v.R[1] % 2},{v.b},{v.e},{a},{g},{v.gacc},{prv},{pkh},{int(ins)},{sid}"
+    return f"S,1,{v.R[1] % 2},{v.b},{v.e},{a},{g},{v.gacc},{prv},{pkh},{int(ins)},{label}"
 
 
 def _nonce_run(nonce0: bytes, ops: list[str], fresh_ctx=True) -> list[str]:
     buf = bytearray(nonce0)
     out = []
+    psbt = None
     for op in ops:
         t = op.split(",")
         if t[0] == "P":
             r = "bytes:" + common.hx(bytes(buf))
+        elif t[11].startswith("psbt"):
+            # psbt-level: btclib.psbt.musig2.partial_sign on one psbt for the whole history
+            if psbt is None:
+                psbt = copy.deepcopy(_psbt_session()[0])
+            try:
+                s = psbt_musig2.partial_sign(psbt, 0, buf, int(t[8]), _PSBT_AGG[t[11]])
+                r = "sig:" + common.hx(s)
+            except Exception as e:  # noqa: BLE001
+                r = "err:" + _cls(e)
         else:
             sid, prv = int(t[11]), int(t[8])
             try:
@@ -202,6 +221,83 @@ def _nonce_run(nonce0: bytes, ops: list[str], fresh_ctx=True) -> list[str]:
                 r = "err:" + _cls(e)
         out.append(r + "@" + common.hx(bytes(buf)))
     return out
+
+
+# ------------------------------------------------------------------- psbt-level MuSig2 (BIP373's first vector)
+PSBT_KEYS = (0x9E3D0FD1845E73FC5EB4202C047631E9BD45AEE639C93DE0E21EF7EFE1100812,
+             0x754F619CF0F5A9CCE70168BB4EA613804E53E4C2487A967D1E2564CF8007AD25, 3)
+_AGG_PK = bytes.fromhex("030b58e337aa4d3852a8c29387c42408d8cfbe3a613a5e397e0a9f01a5fb7107d4")
+_PSBT_AGG = {"psbt": _AGG_PK, "psbtnoagg": musig2.individual_pub_key(77)}
+
+
+@functools.lru_cache(maxsize=None)
+def _psbt_session():
+    """(psbt carrying the three public nonces, the three secret nonces): the real `nonce_gen`, its randomness fixed."""
+    vec = json.load(open("/repo/tests/psbt/_data/bip373_test_vectors.json"))["valid psbts"]
+    enc = next(v["encoded psbt"] for v in vec if v["description"].startswith("Spend of a Taproot output where the output key")
+               and "participant pubkeys only" in v["description"])
+    psbt = Psbt.b64decode(enc)
+    real = musig2.secrets.token_bytes
+    secs = []
+    try:
+        for i, k in enumerate(PSBT_KEYS):
+            musig2.secrets.token_bytes = lambda n, i=i: _h("psbt rand", i)[:n]
+            secs.append(bytes(psbt_musig2.nonce_gen(psbt, 0, k, _AGG_PK)))
+    finally:
+        musig2.secrets.token_bytes = real
+    return psbt, tuple(secs)
+
+
+def _psbt_sign_op(kind, k):
+    """op token for `psbt.musig2.partial_sign(psbt, 0, <nonce>, key, aggregate)`: what precedes `musig2.sign` in it
+    (participant / public-nonce / session lookups) is, for the nonce, a session that does not assemble."""
+    prv = {"right": PSBT_KEYS[k], "other": PSBT_KEYS[(k + 1) % 3], "stranger": 0xDEAD, "noagg": PSBT_KEYS[k]}[kind]
+    label = "psbtnoagg" if kind == "noagg" else "psbt"
+    psbt = _psbt_session()[0]
+
+    def make():
+        # exactly the lookups partial_sign makes before it reaches musig2.sign
+        pub_key = musig2.individual_pub_key(prv)
+        tweaked = psbt_musig2._session_parts(psbt, 0, _PSBT_AGG[label], b"").tweaked_pub_key  # noqa: SLF001
+        if psbt.inputs[0].musig2_pub_nonces.get(psbt_musig2._key_data(pub_key, tweaked, b"")) is None:  # noqa: SLF001
+            raise BTClibValueError("no public nonce")
+        return psbt_musig2.session_context(psbt, 0, _PSBT_AGG[label], leaf_hash=b"").context
+    return _sign_op_ctx(make, prv, label)
+
+
+def _o_psbt_partial_sign(w):
+    """psbt-level single use: one partial signature per secret nonce, recorded once, verifying; refused calls that
+    never reach `musig2.sign` leave the nonce alone; every call that reaches it burns it."""
+    psbt = copy.deepcopy(_psbt_session()[0])
+    k = w["k"]
+    buf = bytearray(_psbt_session()[1][k])
+    sigs = 0
+    burnt = False
+    for kind in w["ops"]:
+        prv = {"right": PSBT_KEYS[k], "other": PSBT_KEYS[(k + 1) % 3], "stranger": 0xDEAD, "noagg": PSBT_KEYS[k]}[kind]
+        agg = _PSBT_AGG["psbtnoagg" if kind == "noagg" else "psbt"]
+        before = bytes(buf)
+        try:
+            s = psbt_musig2.partial_sign(psbt, 0, buf, prv, agg)
+        except Exception as e:  # noqa: BLE001
+            if _cls(e) == "foreign":
+                return False, f"{kind}: foreign {type(e).__name__}: {e}"
+            s = None
+        if s is not None:
+            sigs += 1
+            if burnt:
+                return False, f"a second use of the nonce signed: {w['ops']}"
+            if not psbt_musig2.partial_sig_verify(psbt, 0, musig2.individual_pub_key(prv), agg):
+                return False, "the recorded partial signature does not verify"
+        if kind in ("right", "other"):
+            burnt = True
+            if any(buf[:64]):
+                return False, f"`{kind}` reached musig2.sign and left the nonce readable"
+        elif bytes(buf) != before:
+            return False, f"`{kind}` is refused before musig2.sign yet changed the nonce"
+    if len(psbt.inputs[0].musig2_partial_sigs) != sigs or sigs > 1:
+        return False, f"{sigs} signatures returned, {len(psbt.inputs[0].musig2_partial_sigs)} recorded"
+    return True, f"{sigs} signature in {w['ops']}"
 
 
 def _fmt(recs):
@@ -258,7 +354,26 @@ _ACC = xpub_from_xprv(derive(_XPRV, "m/84h/0h/0h"))
 _D0 = descriptors.parse(f"wpkh({_ACC}/0/*)")
 _CHILD = derive(_XPRV, "m/0/1")
 _CHILD_PUB = pub_keyinfo_from_key(_CHILD)[0]
-SOFT_METHODS = ["xpub", "sign_message", "display_address", "sign_ecdsa", "sign_schnorr", "sign_schnorr_script_path"]
+SOFT_METHODS = ["xpub", "sign_message", "display_address", "sign_psbt", "sign_ecdsa", "sign_schnorr",
+                "sign_schnorr_script_path"]
+
+
+@functools.lru_cache(maxsize=None)
+def _spend_psbt(fp=None):
+    """a psbt of the signer's own BIP84 account, updated from descriptors carrying the key origin: what a wallet
+    hands a signer.  -> (psbt, [spent output]).  With another fingerprint it names no key this signer holds."""
+    fp = fp or SoftwareSigner(_XPRV).master_fingerprint.hex()
+    rec = descriptors.parse(f"wpkh([{fp}/84h/0h/0h]{_ACC}/0/*)")
+    chg = descriptors.parse(f"wpkh([{fp}/84h/0h/0h]{_ACC}/1/*)")
+    prev_out = TxOut(100_000, rec.script_pub_key(0))
+    prev_tx = Tx(vin=[TxIn(OutPoint(b"\x06" * 32, 0))], vout=[prev_out])
+    tx = Tx(vin=[TxIn(OutPoint(prev_tx.id, 0))],
+            vout=[TxOut(60_000, rec.script_pub_key(1)), TxOut(39_000, chg.script_pub_key(0))])
+    psbt = Psbt.from_tx(tx)
+    psbt.inputs[0].non_witness_utxo = prev_tx
+    psbt = rec.update_psbt_input(psbt, 0, 0)
+    psbt = chg.update_psbt_output(psbt, 1, 0)
+    return psbt, [prev_out]
 
 
 def _soft_call(s: SoftwareSigner, m: str, ok: bool):
@@ -269,6 +384,16 @@ def _soft_call(s: SoftwareSigner, m: str, ok: bool):
         return s.sign_message(b"hello", "m/0" if ok else "m/0/x")
     if m == "display_address":
         return s.display_address(_D0, 3 if ok else -1)
+    if m == "sign_psbt":
+        psbt, spent = _spend_psbt()
+        signed = s.sign_psbt(copy.deepcopy(psbt))
+        if len(signed.inputs[0].partial_sigs) != 1:
+            return None
+        verify_transaction(spent, extract_tx(finalize(signed)))   # the engine accepts the spend, or this raises
+        return signed
+    if m == "sign_psbt_foreign":      # a psbt none of whose keys is this signer's: answered unchanged while open
+        signed = s.sign_psbt(copy.deepcopy(_spend_psbt("00000001")[0]))
+        return signed if not signed.inputs[0].partial_sigs else None
     if m == "sign_ecdsa":
         return s.sign_ecdsa(_CHILD_PUB, org, _MSG)
     if m == "sign_schnorr":
@@ -551,13 +676,14 @@ def _o_signer_dead(w):
     return True, f"{len(recs)} steps"
 
 
-SIGNING = ["sign_message", "sign_ecdsa", "sign_schnorr", "sign_schnorr_script_path"]
+SIGNING = ["sign_psbt", "sign_psbt_foreign", "sign_message", "sign_ecdsa", "sign_schnorr", "sign_schnorr_script_path"]
 
 
 def _o_soft_closed(w):
     s = SoftwareSigner(_XPRV)
     for m in w["before"]:
-        _soft_call(s, m, True)
+        if _soft_call(s, m, True) is None:
+            return False, f"an open signer did not answer {m}"
     s.close()
     try:
         v = _soft_call(s, w["method"], True)
@@ -854,6 +980,153 @@ def _o_vs_uncached(w):
     return True, f"{len(order)} calls, {answered} answered"
 
 
+# =============================================================================== curve identity (key-soundness of every curve-keyed cache and of the dispatch)
+def _nadd(P, Q, p, a):
+    """affine chord-and-tangent, None = infinity: the harness's own arithmetic, independent of btclib."""
+    if P is None:
+        return Q
+    if Q is None:
+        return P
+    if P[0] == Q[0]:
+        if (P[1] + Q[1]) % p == 0:
+            return None
+        lam = (3 * P[0] * P[0] + a) * pow(2 * P[1], -1, p) % p
+    else:
+        lam = (Q[1] - P[1]) * pow(Q[0] - P[0], -1, p) % p
+    x = (lam * lam - P[0] - Q[0]) % p
+    return x, (lam * (P[0] - x) - P[1]) % p
+
+
+def _nmult(m, P, p, a):
+    R = None
+    while m:
+        if m & 1:
+            R = _nadd(R, P, p, a)
+        P = _nadd(P, P, p, a)
+        m >>= 1
+    return R
+
+
+def _order(p, a, b):
+    n = p + 1
+    for x in range(p):
+        r = (x * x * x + a * x + b) % p
+        n += 0 if r == 0 else (1 if pow(r, (p - 1) // 2, p) == 1 else -1)
+    return n
+
+
+def _is_prime(n):
+    return n > 1 and all(n % d for d in range(2, int(n ** 0.5) + 1))
+
+
+@functools.lru_cache(maxsize=None)
+def _curve_pairs():
+    """{component: (params1, params2)} — two constructible curves differing ONLY in that component.
+    params = [p, a, b, gx, gy, n, cofactor, order_check].  No pair for b (G fixes it) nor for the cofactor
+    (p and n fix it): no valid such curve exists."""
+    P, G, n = secp256k1.p, secp256k1.G, secp256k1.n
+    base = [P, 0, 7, G[0], G[1], n, 1, True]
+    beta = next(t for t in (pow(g, (P - 1) // 3, P) for g in range(2, 50)) if t != 1)
+    pairs = {"gy": (base, [P, 0, 7, G[0], P - G[1], n, 1, True]),
+             "gx": (base, [P, 0, 7, beta * G[0] % P, G[1], n, 1, True])}
+    primes = [q for q in range(211, 1200) if _is_prime(q)]
+    # p: y^2 = x^3 + x + 7 through (1, 3), the same prime order over two fields
+    seen = {}
+    for q in primes:
+        if (4 + 27 * 49) % q == 0:
+            continue
+        o = _order(q, 1, 7)
+        if _is_prime(o) and o != q:
+            if o in seen and "p" not in pairs:
+                pairs["p"] = ([seen[o], 1, 7, 1, 3, o, 1, True], [q, 1, 7, 1, 3, o, 1, True])
+            seen.setdefault(o, q)
+    # a: G = (0, y) lies on y^2 = x^3 + a x + y^2 for every a
+    for q in primes[:40]:
+        y = 5
+        by_order = {}
+        for a in range(1, 60):
+            if (4 * a ** 3 + 27 * (y * y) ** 2) % q == 0:
+                continue
+            o = _order(q, a, y * y % q)
+            if _is_prime(o) and o != q:
+                if o in by_order and "a" not in pairs:
+                    pairs["a"] = ([q, by_order[o], y * y % q, 0, y, o, 1, True], [q, a, y * y % q, 0, y, o, 1, True])
+                by_order.setdefault(o, a)
+        if "a" in pairs:
+            break
+    # n: the true order, and another prime of the Hasse interval taken on trust (order_check=False)
+    c = pairs["p"][0]
+    other = next(k for k in range(c[5] + 1, c[5] + 60) if _is_prime(k) and k != c[0])
+    pairs["n"] = (c, c[:5] + [other, 1, False])
+    return pairs
+
+
+def _mk_curve(c):
+    return Curve(c[0], c[1], c[2], (c[3], c[4]), c[5], c[6], weakness_check=False, order_check=c[7], name="probe")
+
+
+def _o_curve_identity(w):
+    """Two curves differing in one component of their identity are different keys, and every memoised or
+    backend-dispatching API, called alternately on the two (cold, warm, across backend flips), answers each
+    curve's own reference — computed by the harness's own affine arithmetic."""
+    comp, c1, c2 = w["component"], w["c1"], w["c2"]
+    rng = random.Random(w["seed"])
+    with _flag(None):
+        _clear_all()
+        ecs = [_mk_curve(c1), _mk_curve(c2)]
+        conflated = None      # reported only if no API is caught answering wrongly because of it
+        if ecs[0] == ecs[1] or ecs[1] == ecs[0] or not (ecs[0] != ecs[1]) or len({ecs[0]: 1, ecs[1]: 2}) != 2:
+            conflated = f"curves differing only in {comp} compare equal / are one cache key: {str(c1[:7])[:90]} vs {str(c2[:7])[:90]}"
+        big = c1[0] > 2 ** 200
+        ms = [rng.randrange(1, 2 ** 250 if big else 2 ** 20) for _ in range(2 if big else 4)]
+        for cond in w["conds"]:
+            if cond == "clear":
+                _clear_all()
+            elif cond in ("flag0", "flag1"):
+                if INSTALLED or cond == "flag0":
+                    set_serving(serving=cond == "flag1")
+            for m in ms:
+                for ec, c in ((ecs[0], c1), (ecs[1], c2), (ecs[0], c1)):
+                    p, a, G, n = c[0], c[1], (c[3], c[4]), c[5]
+                    def ref(k, P=G):
+                        r = _nmult(k % n, P, p, a)
+                        return (1, 0) if r is None else r
+                    k = m % 97 + 2
+                    Pk = ref(k)
+                    checks = [("mult(m)", lambda: mult(m, None, ec), ref(m)),
+                              ("mult(m, P)", lambda: mult(m, Pk, ec), ref(m, Pk)),
+                              ("PreparedPoint.mult", lambda: PreparedPoint(Pk, ec).mult(m), ref(m, Pk)),
+                              ("double_mult_var", lambda: double_mult_var(m, G, k, Pk, ec),
+                               (lambda r: (1, 0) if r is None else r)(_nadd(_nmult(m % n, G, p, a), _nmult(k % n, Pk, p, a), p, a))),
+                              ("multi_mult_var", lambda: multi_mult_var([m, k, 3], [G, Pk, G], ec),
+                               (lambda r: (1, 0) if r is None else r)(_nadd(_nmult((m + 3) % n, G, p, a), _nmult(k % n, Pk, p, a), p, a))),
+                              ("dsa.gen_keys", lambda: dsa.gen_keys(m % n or 1, ec)[1], ref(m % n or 1))]
+                    if big:
+                        q = m % n or 1
+                        msg = _h("curve", m)
+                        checks.append(("dsa sign/verify", lambda: dsa.verify_(msg, ref(q), dsa.sign_(msg, q, ec=ec)), True))
+                        checks.append(("ssa.gen_keys", lambda: ssa.gen_keys(q, ec)[1], ref(q)[0]))
+                    for name, f, want in checks:
+                        try:
+                            got = f()
+                        except Exception as e:  # noqa: BLE001
+                            return False, f"{name} on the {comp}-variant curve raised {type(e).__name__}: {e} (after `{cond}`)"
+                        got = tuple(got) if isinstance(got, (tuple, list)) else got
+                        if got != want:
+                            which = "second" if c is c2 else "first"
+                            return False, (f"{name} with m={m} on the {which} curve of the `{comp}` pair answered {str(got)[:70]} "
+                                           f"after `{cond}` (serving={is_serving()}), its own reference is {str(want)[:70]}"
+                                           + ("; the two curves compare equal" if conflated else ""))
+                    for f, args in ((cg._cached_multiples, ((*Pk, 1), ec)),  # noqa: SLF001
+                                    (cg._cached_fixed_base_multiples, (ec.GJ, ec, 4)),  # noqa: SLF001
+                                    (cg._cached_odd_multiples_aff, (ec.GJ, ec, 4))):  # noqa: SLF001
+                        if not _same(f, f.__wrapped__, args):
+                            return False, f"{f.__wrapped__.__name__} on the `{comp}` pair differs from its undecorated self"
+    if conflated:
+        return False, conflated
+    return True, f"{comp}: {len(w['conds'])} conditions x {len(ms)} scalars x 3 alternations"
+
+
 # =============================================================================== threads (a search)
 def _thread_pool(seed):
     rng = random.Random(seed)
@@ -926,12 +1199,14 @@ def _o_threads(w):
 
 ORACLES = {
     "nonce.single_use": _o_nonce_single_use,
+    "nonce.psbt_partial_sign": _o_psbt_partial_sign,
     "signer.wiped_dead": _o_signer_dead,
     "softsigner.closed_never_signs": _o_soft_closed,
     "wallet.invariant": _o_wallet_invariant,
     "cache.independent": _o_cache_independent,
     "cache.key_sound": _o_key_sound,
     "cache.vs_uncached": _o_vs_uncached,
+    "curve.identity": _o_curve_identity,
     "threads.search": _o_threads,
 }
 
@@ -998,6 +1273,19 @@ def _run(ctx, rng, thorough):
         fresh = rng.random() < 0.5
         cases.append((f"nonce {common.hx(n0)} {';'.join(ops)}", _fmt(_nonce_run(n0, ops, fresh_ctx=fresh))))
     ctx.correspond("nonce.random", EXE, cases, nontrivial=_nt)
+    pdepth = 6 if thorough else 4
+    cases = []
+    for k in (0, 1, 2) if thorough else (rng.randrange(3),):
+        alpha = [_psbt_sign_op("right", k), _psbt_sign_op("other", k), _psbt_sign_op("stranger", k), _psbt_sign_op("noagg", k), "P"]
+        n0 = _psbt_session()[1][k]
+        for ops in _all_histories(alpha, pdepth if k == 0 or not thorough else 4):
+            cases.append((f"nonce {common.hx(n0)} {';'.join(ops)}", _fmt(_nonce_run(n0, ops))))
+    ctx.correspond("nonce.psbt_partial_sign.all", EXE, cases, nontrivial=_nt)
+    ctx.exhaustive_streams.append(f"nonce.psbt_partial_sign.all: every history of length {pdepth} over psbt.musig2.partial_sign with "
+                                  "the right key, another participant's key, a stranger's key, a wrong aggregate key, and peek")
+    for _ in range(ctx.n(40, 600)):
+        ctx.check("nonce.psbt_partial_sign", {"k": rng.randrange(3), "ops": [rng.choice(["right", "right", "other", "stranger", "noagg"])
+                                                                             for _ in range(rng.randrange(1, 7))]})
     for _ in range(ctx.n(150, 2000)):
         sid0, j = rng.randrange(N_SESSIONS), rng.randrange(3)
         ops = [[sid0 if rng.random() < 0.7 else rng.randrange(N_SESSIONS), rng.choice(kinds)]
@@ -1029,7 +1317,7 @@ def _run(ctx, rng, thorough):
 
     _lap(ctx, "signers")
     # ---------------------------------------------------------------- software signer
-    salpha = ["C", "xpub:1", "sign_message:1", "sign_ecdsa:1", "sign_schnorr_script_path:1", "display_address:1"]
+    salpha = ["C", "xpub:1", "sign_message:1", "sign_ecdsa:1", "sign_schnorr_script_path:1", "sign_psbt:1"]
     d = 5 if thorough else 3
     cases = [(f"soft {';'.join(ops)}", _fmt(_soft_run(ops))) for ops in _all_histories(salpha, d)]
     ctx.correspond("soft.all", EXE, cases, nontrivial=_nt)
@@ -1154,6 +1442,20 @@ def _run(ctx, rng, thorough):
     ctx.check("cache.vs_uncached", {"family": "second_generator", "seed": rng.getrandbits(32)})
 
     _lap(ctx, "caches")
+    for comp, (c1, c2) in sorted(_curve_pairs().items()):
+        for k in range(ctx.n(1, 6)):
+            conds = ["cold", "warm", "flag0", "warm", "flag1", "clear", "flag0", "flag1"]
+            if k:
+                rng.shuffle(conds)
+            first, second = (c1, c2) if k % 2 == 0 else (c2, c1)
+            ctx.check("curve.identity", {"component": comp, "c1": first, "c2": second, "conds": conds, "seed": rng.getrandbits(32)},
+                      key=f"curve-identity-{comp}")
+            ctx.count("curve.pairs", comp)
+    missing = {"p", "a", "gx", "gy", "n"} - set(_curve_pairs())
+    if missing:
+        raise common.HarnessError(f"no curve pair found for components {sorted(missing)}")
+    _lap(ctx, "curves")
+
     # ---------------------------------------------------------------- threads: a search, not a proof
     for k in range(ctx.n(2, 40)):
         ctx.check("threads.search", {"seed": ctx.seed * 1000 + k, "threads": 8, "flips": True})
